@@ -38,6 +38,7 @@ func init() {
 			pc.Env = 15
 			pc.Help = true
 			pc.MaxDepth = 2
+			pc.FnLess = true
 			pc.Kinds = []Kind{KBool, KIncr, KString, KInt, KFloat, KStringOpt, KStrings, KInts, KMap}
 			pc.Modes = []int{r.Intn(3)}
 			pc.Unknowns = []int{0}
